@@ -1008,7 +1008,7 @@ fn judge(case: &NetCase, obs: &Obs, end_tasks: &[TaskInfo], out: &mut Outcome, w
         // flush barrier: a metric whose emit had returned Ok before a flush was invoked must be in a
         // successful datagram by the time that flush returns Ok (C06 through a shared sink: C12)
         if socket_sink && texts_unique && !faulty && !case.queuing {
-            for f in obs.ops.iter().filter(|o| (o.op == "flush" || o.op == "final-flush") && matches!(o.res, Res::Unit)) {
+            'barrier: for f in obs.ops.iter().filter(|o| (o.op == "flush" || o.op == "final-flush") && matches!(o.res, Res::Unit)) {
                 for e in emits.iter().filter(|e| matches!(e.res, Res::Ok(_)) && e.step_after <= f.step_before) {
                     let on_wire = obs.ledger.iter().any(|r| r.result.is_ok() && r.step <= f.step_after && find_sub(&r.payload, e.text.as_bytes()));
                     if !on_wire {
@@ -1020,7 +1020,7 @@ fn judge(case: &NetCase, obs: &Obs, end_tasks: &[TaskInfo], out: &mut Outcome, w
                             props = vec!["C12", "C13", "C06"];
                         }
                         out.violate(&props, "stream.flush-ok-but-not-written", format!("flush on task {} returned Ok at step {} but metric #{} (acknowledged at step {}) was not yet on the wire", f.task, f.step_after, e.id, e.step_after));
-                        break 'buf;
+                        break 'barrier;
                     }
                 }
                 out.probe("flush_barrier_checked");
@@ -1032,7 +1032,7 @@ fn judge(case: &NetCase, obs: &Obs, end_tasks: &[TaskInfo], out: &mut Outcome, w
         // room is what the datagram carries. Oversize metrics, datagrams that carry m (exact fill),
         // flushes and the drop are not judged here; nor are histories with refused sends.
         if socket_sink && texts_unique && !faulty && !case.queuing {
-            for r in obs.ledger.iter().filter(|r| r.result.is_ok()) {
+            'pack: for r in obs.ledger.iter().filter(|r| r.result.is_ok()) {
                 let Some(t) = r.task else { continue };
                 let Some(o) = obs.ops.iter().find(|o| o.task == t && r.idx >= o.ledger_before && r.idx < o.ledger_after && o.step_before <= r.step && r.step <= o.step_after) else { continue };
                 if o.op != "emit" {
@@ -1051,7 +1051,7 @@ fn judge(case: &NetCase, obs: &Obs, end_tasks: &[TaskInfo], out: &mut Outcome, w
                             props.push("C12");
                         }
                         out.violate(&props, "stream.sent-while-room-remained", format!("emit of metric #{} on task {} sent a datagram of {} bytes that carries the metric itself although the {cap}-byte buffer was not full", o.id, t, r.payload.len()));
-                        break 'buf;
+                        break 'pack;
                     }
                     continue;
                 }
@@ -1061,7 +1061,7 @@ fn judge(case: &NetCase, obs: &Obs, end_tasks: &[TaskInfo], out: &mut Outcome, w
                         props.push("C12");
                     }
                     out.violate(&props, "stream.needless-datagram", format!("emit of metric #{} ({} bytes) on task {} sent a datagram of {} bytes although the metric and its terminator fit behind it in the {cap}-byte buffer", o.id, m.len(), t, r.payload.len()));
-                    break 'buf;
+                    break 'pack;
                 }
                 if case.tasks.len() > 1 {
                     out.probe("shared_sink_datagram_was_needed");
